@@ -6,53 +6,79 @@ import (
 )
 
 // Locks taken under the controlled scheduler and not released yet. Only the
-// thread that is running touches the list (the scheduler runs one thread at a
-// time), hence the norace accessors.
+// thread that is running touches the table (the scheduler runs one thread at a
+// time). The accessors are norace AND use nothing but plain indexed loads and
+// stores on a fixed array: append / copy go through runtime.slicecopy, which
+// reports to the race detector on behalf of its caller even when the caller is
+// norace (a false report met in the first version of this file).
 type heldLock struct {
 	p  uintptr
 	pc uintptr
 }
 
-var held []heldLock
+const maxHeld = 512
+
+var (
+	held     [maxHeld]heldLock
+	nHeld    int
+	heldLost bool // more than maxHeld locks held at once: tracking abandoned for this execution
+)
 
 // NoteLock records that the lock at address p was taken by the caller's caller.
 //
 //go:norace
 func NoteLock(p uintptr) {
+	if nHeld >= maxHeld {
+		heldLost = true
+		return
+	}
 	var pcs [1]uintptr
 	runtime.Callers(3, pcs[:])
-	held = append(held, heldLock{p, pcs[0]})
+	held[nHeld].p = p
+	held[nHeld].pc = pcs[0]
+	nHeld++
 }
 
 // NoteUnlock forgets the most recent acquisition of the lock at address p.
 //
 //go:norace
 func NoteUnlock(p uintptr) {
-	for i := len(held) - 1; i >= 0; i-- {
+	for i := nHeld - 1; i >= 0; i-- {
 		if held[i].p == p {
-			held = append(held[:i], held[i+1:]...)
+			for j := i; j < nHeld-1; j++ {
+				held[j].p = held[j+1].p
+				held[j].pc = held[j+1].pc
+			}
+			nHeld--
 			return
 		}
 	}
 }
 
-// ResetHeldLocks empties the list (start of a controlled execution).
+// ResetHeldLocks empties the table (start of a controlled execution).
 //
 //go:norace
-func ResetHeldLocks() { held = held[:0] }
+func ResetHeldLocks() { nHeld = 0; heldLost = false }
 
 // HeldLocks names the functions that took the locks still held.
 //
 //go:norace
 func HeldLocks() []string {
+	if heldLost {
+		return nil
+	}
 	var out []string
-	for _, h := range held {
-		fn := "?"
-		if f := runtime.FuncForPC(h.pc - 1); f != nil {
-			fn = f.Name()
-			fn = fn[strings.LastIndex(fn, "/")+1:]
-		}
-		out = append(out, fn)
+	for i := 0; i < nHeld; i++ {
+		out = append(out, funcName(held[i].pc))
 	}
 	return out
+}
+
+func funcName(pc uintptr) string {
+	fn := "?"
+	if f := runtime.FuncForPC(pc - 1); f != nil {
+		fn = f.Name()
+		fn = fn[strings.LastIndex(fn, "/")+1:]
+	}
+	return fn
 }
